@@ -16,13 +16,13 @@ ID = "C11"
 EPS = np.finfo(float).eps
 
 META = {
-    "rule": "(wrap) neg_pi_to_pi and the PoseSE2 constructor on the dense angle alphabet (every k pi/4 +- 0..3 ulp, 2 pi k +- 0..2 ulp, +-10^m and 3x10^m up to 1e6, ...): result in [-pi, pi] "
+    "rule": "(wrap) neg_pi_to_pi, the PoseSE2 constructor and the .g2o loader (VERTEX_SE2 line) on the dense angle alphabet (every k pi/4 +- 0..3 ulp, 2 pi k +- 0..2 ulp, +-10^m and 3x10^m up to 1e6, ...): result in [-pi, pi] "
     "and congruent to the argument modulo the EXACT 2 pi (60-digit rational) within 4 ulp(max(|a|,4)); (normalize) unit quaternions x scales {1e-3,1,1e3} x both signs; (tree) every word "
-    "over a 22-operation alphabet {(+)a, a(+), (-)a, a(-), inverse, [+]delta, copy} up to depth 4 (thorough 5) from 6 start poses, invariants on EVERY node: SE(2) angle in [-pi, pi] and "
+    "over a 25-operation alphabet {(+)a, a(+), (-)a, a(-), inverse, [+]delta, copy, p += a, p += delta} up to depth 4 (thorough 5) from 6 start poses, invariants on EVERY node: SE(2) angle in [-pi, pi] and "
     "congruent to the exact function of the operand angles, SE(3) | |q| - 1 | <= 8 k eps after k operations, finiteness; (chain) every word of length <= 2 iterated periodically to 1e3 "
-    "(thorough 1e4; length 3 to 1e3) operations; (opt) SE(3) SLAM families optimised 50 iterations one at a time, norms checked after each. non-trivial = node reached by a word containing a rotation",
+    "(thorough 1e4; length 3 to 1e3) operations; (opt) SE(3) SLAM families optimised 50 iterations one at a time, norms checked after each; (optk) one optimize(tol=0, max_iter=k) call for EVERY k in 1..50. non-trivial = node reached by a word containing a rotation",
     "assumptions": ["exhaustive in the generating word, not over all 1e4-long words", "drift bound 8 k eps (measured <= 1.0 k eps on the pinned tree)"],
-    "required_classes": ["wrap", "wrap:plus_pi_reached", "ctor", "normalize", "tree:SE2", "tree:SE3", "chain:SE2", "chain:SE3", "opt_history", "w_negative", "angle_seam"],
+    "required_classes": ["wrap", "wrap:plus_pi_reached", "ctor", "load", "opt_single_call", "normalize", "tree:SE2", "tree:SE3", "chain:SE2", "chain:SE3", "opt_history", "w_negative", "angle_seam"],
     "bounds": {"quick": "tree depth 4; chains: words <= 2 to 1e3 operations; optimizer histories 50 iterations", "thorough": "tree depth 5; chains: words <= 2 to 1e4, words of length 3 to 1e3"},
 }
 
@@ -50,7 +50,12 @@ def ops(kind, seed):
     for k in range(4):
         out += [("radd", k), ("ladd", k), ("rsub", k), ("lsub", k), ("box", k)]
     out += [("inv", 0), ("copy", 0)]
+    # the in-place spellings: p += pose (same type), p += increment array
+    out += [("iadd", 0), ("iadd", 1), ("ibox", 0)]
     return out
+
+
+NOPS = 25
 
 
 def starts(kind, seed):
@@ -74,6 +79,14 @@ def apply(kind, p, op, opnd, dl):
         return p + dl[k]
     if name == "inv":
         return p.inverse
+    if name == "iadd":
+        r = p.copy()
+        r += opnd[k]
+        return r
+    if name == "ibox":
+        r = p.copy()
+        r += dl[k]
+        return r
     return p.copy()
 
 
@@ -81,7 +94,7 @@ def exact_angle(op, th, opnd_c, dl_c):
     """exact (unwrapped) result angle as a Fraction function of the operand angles."""
     name, k = op
     t = Fraction(th)
-    if name == "radd":
+    if name in ("radd", "iadd"):
         return t + Fraction(opnd_c[k][2])
     if name == "ladd":
         return Fraction(opnd_c[k][2]) + t
@@ -89,7 +102,7 @@ def exact_angle(op, th, opnd_c, dl_c):
         return t - Fraction(opnd_c[k][2])
     if name == "lsub":
         return Fraction(opnd_c[k][2]) - t
-    if name == "box":
+    if name in ("box", "ibox"):
         return t + Fraction(dl_c[k][2])
     if name == "inv":
         return -t
@@ -129,12 +142,15 @@ def chunks(tier, seed):
     out = [("wrap", None, 0), ("normalize", None, 0)]
     for kind in ("SE2", "SE3"):
         for s in range(6):
-            for o in range(22):
+            for o in range(NOPS):
                 out.append(("tree", kind, (s, o)))
-        for o in range(22):
+        for o in range(NOPS):
             out.append(("chain", kind, o))
     for kind_fam in (("SE3", "ring"), ("SE3", "helix"), ("SE2", "ring")):
         out.append(("opt", kind_fam, 0))
+        # single optimize() calls of every length 1..50 (the loop counter inside one call is part of the state)
+        for lo in range(1, 51, 10):
+            out.append(("optk", kind_fam, lo))
     return out
 
 
@@ -145,7 +161,7 @@ def run_chunk(chunk, tier, seed):
         from graphslam.util import neg_pi_to_pi
 
         for ang in A.ANG_DENSE():
-            for which in ("wrap", "ctor"):
+            for which in ("wrap", "ctor", "load"):
                 case = {"t": which, "a": ang}
                 acc.evals += 1
                 acc.states += 1
@@ -193,6 +209,21 @@ def run_chunk(chunk, tier, seed):
             for o2 in allops:
                 for o3 in allops:
                     _chain(acc, kind, seed, [first, o2, o3], 1000)
+    elif typ == "optk":
+        kind, fam = a
+        for k in range(b, b + 10):
+            case = {"t": "optk", "kind": kind, "fam": fam, "n": 3, "noise": "sin", "nz": 0.02, "seed": seed, "k": k}
+            acc.evals += 1
+            msgs, info = _eval_optk(case)
+            acc.states += 1
+            acc.transitions += k
+            acc.traces += 1
+            acc.nontrivial += 1
+            acc.cls("opt_single_call")
+            acc.ratio(info["ratio"])
+            if msgs:
+                acc.violation(case, msgs)
+            acc.sample(case, 1)
     elif typ == "opt":
         kind, fam = a
         for n in (3, 6):
@@ -291,8 +322,10 @@ def _chain(acc, kind, seed, word, n):
 
 def eval_case(case):
     t = case["t"]
-    if t in ("wrap", "ctor"):
+    if t in ("wrap", "ctor", "load"):
         return _eval_wrap(case)[0]
+    if t == "optk":
+        return _eval_optk(case)[0]
     if t == "normalize":
         return _eval_norm(case)
     if t == "opt":
@@ -320,6 +353,21 @@ def _eval_wrap(case):
     msgs = []
     if case["t"] == "wrap":
         r = float(neg_pi_to_pi(a))
+    elif case["t"] == "load":
+        # the pose the .g2o loader produces for a VERTEX_SE2 line carrying this angle
+        import os
+        import shutil
+        import tempfile
+
+        tmp = tempfile.mkdtemp(prefix="vf-c11-")
+        try:
+            path = os.path.join(tmp, "a.g2o")
+            with open(path, "w") as f:
+                f.write("VERTEX_SE2 0 1.0 -2.0 %r\nVERTEX_SE2 1 0.0 0.0 0.0\nEDGE_SE2 0 1 1.0 0.0 0.0 1 0 0 1 0 1\n" % float(a))
+            g = I.Graph.from_g2o(path)
+            r = float(I.graph_vertices(g)[0].pose[2])
+        finally:
+            shutil.rmtree(tmp, ignore_errors=True)
     else:
         r = float(I.mk_pose("SE2", [1.0, -2.0, a])[2])
     if not (-math.pi <= r <= math.pi):
@@ -350,6 +398,32 @@ def _eval_norm(case):
     if d > 1e-12:
         msgs.append("normalize() changed the rotation (matrix differs by %.3g)" % d)
     return msgs
+
+
+def _eval_optk(case):
+    """ONE optimize(tol=0, max_iter=k) call; invariants on the returned vertices."""
+    kind = case["kind"]
+    dt, dr = (0.3, 0.2) if kind == "SE2" else (0.1, 0.05)
+    spec, _ = SF.make(case["fam"], kind, case["n"], "alt", case["noise"], dt, dr, case["nz"], case["seed"])
+    g, verts, edges = GB.build(spec)
+    k = case["k"]
+    GB.optimize(g, tol=0.0, max_iter=k, fix_first_pose=False)
+    msgs = []
+    ratio = 0.0
+    for v in verts:
+        c = I.comps(v.pose)
+        if not all(math.isfinite(x) for x in c):
+            msgs.append("vertex %r not finite after one optimize(max_iter=%d) inside the calibrated neighbourhood" % (v.id, k))
+            return msgs, {"ratio": float("inf")}
+        if I.kind_of(v.pose) == "SE3":
+            n = math.sqrt(sum(x * x for x in c[3:]))
+            bound = 16 * (k + 1) * EPS
+            ratio = max(ratio, abs(n - 1.0) / bound)
+            if abs(n - 1.0) > bound:
+                msgs.append("SE(3) vertex %r: | |q| - 1 | = %.3g after one optimize(max_iter=%d)" % (v.id, abs(n - 1.0), k))
+        if I.kind_of(v.pose) == "SE2" and not (-math.pi <= c[2] <= math.pi):
+            msgs.append("SE(2) vertex %r: angle %.17g outside [-pi, pi] after one optimize(max_iter=%d)" % (v.id, c[2], k))
+    return msgs, {"ratio": ratio}
 
 
 def _eval_opt(case):
